@@ -407,10 +407,75 @@ def check_manager(case):
             "sample": {"species": case["species"], "opts": case["opts"], "route": case.get("route")}}
 
 
+# ------------------------------------------------------------------ (e) Manager: guessed restraints only when asked for
+@st.composite
+def guess_case(draw):
+    nres = draw(st.sampled_from([1, 2, 3, 3, 4, 4, 5, 6]))
+    sizes_s = draw(st.lists(st.integers(1, 3), min_size=nres, max_size=nres))
+    sizes_e = draw(st.lists(st.integers(1, 4), min_size=nres, max_size=nres))
+    if sum(sizes_s) == sum(sizes_e):
+        sizes_e[0] += 1
+    ns, ne = sum(sizes_s), sum(sizes_e)
+    return {"sizes_s": sizes_s, "sizes_e": sizes_e,
+            "restr": draw(st.one_of(st.none(), ac.restraint_list(ns, ne, max_len=4))),
+            "flag": draw(st.sampled_from(["default", "default", "false", "true", "true"])), "seed": draw(gen.SEEDS)}
+
+
+def check_guess(case):
+    rng = np.random.default_rng(case["seed"])
+    nres = len(case["sizes_s"])
+
+    def spec(sizes, tag):
+        residues, k = [], 0
+        for r, sz in enumerate(sizes):
+            residues.append(["G%d" % r, r + 1, ["%s%d" % (tag, k + i + 1) for i in range(sz)]])
+            k += sz
+        edges = [[i, i + 1] for i in range(k - 1)]
+        return gen.with_coords({"name": "PROT", "edges": edges, "residues": residues}, gen.walk_geometry(k, edges, rng))
+    s, e = spec(case["sizes_s"], "C"), spec(case["sizes_e"], "N")
+    records = []
+    for inst in range(2):
+        k = 0
+        for rn, ri, names in s["residues"]:
+            for an in names:
+                xyz = np.round(np.array(s["coords"][k]) + 3 * inst, 3)
+                records.append((ri + 10 * inst, rn, an, len(records) + 1) + tuple(xyz))
+                k += 1
+    gro = env.fresh_path(".gro")
+    indep.write_gro(gro, "one multi-residue species", records, [20.0, 20.0, 20.0])
+    man = lib("manager", Manager.from_files, gro, write_spec_itp(s))
+    lib("end", man.add_end_molecule, build_molecule(e))
+    user = None if not case["restr"] else {"PROT": [tuple(r) for r in case["restr"]]}
+    if case["flag"] == "default":
+        parsed = lib("parse", man.parse_restrictions, user)
+    else:
+        parsed = lib("parse", man.parse_restrictions, user, case["flag"] == "true")
+    got = parsed.get("PROT")
+    got = None if not got else [tuple(int(v) for v in p) for p in got]
+    guessed = case["flag"] == "true" and nres > 3
+    if guessed:
+        corr = man.molecule_correspondence["PROT"]
+        exp = [tuple(int(v) for v in p) for p in lib("guess", guess_protein_restrains, corr.start, corr.end)]
+        what = "guessed restraints (asked for, %d residues)" % nres
+    else:
+        exp = None if user is None else list(user["PROT"])
+        what = "the restraints the user gave (%s, %d residues)" % (
+            "guessing not asked for" if case["flag"] != "true" else "guessing only applies to more than 3 residues", nres)
+    if got != exp:
+        raise PropertyViolation("manager-guess", "parse_restrictions(%s, guess flag %s) returns %r for the species, expected %s: %r"
+                                % ("None" if user is None else "user restraints", case["flag"], got if got is None else got[:6],
+                                   what, exp if exp is None else exp[:6]),
+                                cls="manager-guess:%s" % ("guessed" if guessed else "user"))
+    return {"nontrivial": nres > 3, "classes": ["flag:" + case["flag"], "residues:%s" % (">3" if nres > 3 else "<=3"),
+                                                 "user-restraints" if user else "no-user-restraints"]}
+
+
 SUBCHECKS = [
     Sub("routing", check_routing, strategy=lambda tier: routing_case(), quick=6000, thorough=240000,
         min_share={"swap": 0.3, "filter": 0.3, "nontrivial": 0.05}),
     Sub("splitter", check_splitter, enumerate=splitter_cases, note="all residue lengths 1..40 x 1..40 x 3 offset pairs"),
     Sub("protein", check_protein, strategy=lambda tier: protein_case(), quick=1000, thorough=40000),
     Sub("manager", check_manager, strategy=lambda tier: manager_case(), quick=400, thorough=16000),
+    Sub("guess", check_guess, strategy=lambda tier: guess_case(), quick=400, thorough=16000,
+        note="Manager.parse_restrictions: the user's restraints unless guessing is asked for and the species has more than 3 residues"),
 ]
